@@ -226,6 +226,8 @@ class kFlowDecomp(pathmodel.AbstractPathModelDAG):
                 utils.logger.error(f"{__name__}: solution_weights_superset must contain only integer values when weight_type is int, not {self.solution_weights_superset}")
                 raise ValueError(f"solution_weights_superset must contain only integer values when weight_type is int, not {self.solution_weights_superset}")
             self.k = len(self.solution_weights_superset)
+            # The unused weights of the superset give empty paths, which the caller did not necessarily ask for
+            self._empty_paths_requested = self.optimization_options.get("allow_empty_paths", False)
             self.optimization_options["allow_empty_paths"] = True
             self.optimization_options["optimize_with_safe_paths"] = False
             self.optimization_options["optimize_with_flow_safe_paths"] = False
@@ -505,6 +507,10 @@ class kFlowDecomp(pathmodel.AbstractPathModelDAG):
         ------
         - `exception` If model is not solved.
         """
+
+        if self.solution_weights_superset is not None and not self._empty_paths_requested:
+            # At most k of the given weights are used: the paths of the unused ones are not part of the solution
+            remove_empty_paths = True
 
         if self._solution is not None:
             return self._remove_empty_paths(self._solution) if remove_empty_paths else self._solution
